@@ -15,14 +15,9 @@ def _sh(s):
     return re.sub(r"conv<<Operation as From<op_[a-z_]*::[A-Za-z]*>>::from>", "op", s)
 
 
-def _rec(d, key, good, msg, loc):
-    d.setdefault(key, [True, msg, loc])
-    if not good:
-        d[key] = [False, msg, loc]
+from ..engine import rec as _rec, emit as _emit, PathCheck  # noqa: E402
 
 
-def _emit(d):
-    return [ok(k) if g else bad(k, m, l) for k, (g, m, l) in sorted(d.items())]
 
 
 def _paths(ctx, name, mv=1):
